@@ -519,3 +519,122 @@ func rootHasNoParent(c *core.Ctx) {
 	c.Check(bad == "" && n > 0, "compiler.Code.Root|returns-a-parentless-code", p.Pos(sf.Pos()),
 		"every value Root() returns was tested to have no parent"+ifs(bad != "", "; the return at "+bad+" was not"))
 }
+
+// baseNeverDropped (C13-R8): the base directory of a rooted filesystem is only
+// ever set from what the host configured (possibly cleaned); it is never
+// replaced by a constant.  An empty base makes ResolvePath return paths as they
+// are — the filesystem silently stops being confined.
+func baseNeverDropped(c *core.Ctx) {
+	p := c.P
+	n := 0
+	for _, rel := range []string{"os/localfs", "os"} {
+		if !p.HasPkg(rel) {
+			continue
+		}
+		for _, fn := range repoFns(p, rel) {
+			for _, b := range fn.Blocks {
+				for _, in := range b.Instrs {
+					st, ok := in.(*ssa.Store)
+					if !ok {
+						continue
+					}
+					fa, ok := st.Addr.(*ssa.FieldAddr)
+					if !ok {
+						continue
+					}
+					f := fieldVar(fa)
+					if f == nil || f.Name() != "base" || !core.IsStringType(f.Type()) {
+						continue
+					}
+					n++
+					_, isConst := st.Val.(*ssa.Const)
+					c.Check(!isConst, core.SSAName(fn)+"|base-from-configuration", p.Pos(st.Pos()),
+						"the base of a rooted filesystem is assigned from the configured value, never from a constant")
+				}
+			}
+		}
+	}
+	c.Stat("base_stores", n)
+}
+
+// noIdentityComparisonOfScriptValues (C16-R8, C15-R7): two script values are
+// never compared with Go's == (pointer identity of the boxed objects), except
+// against the Nil/True/False singletons.  Small ints, booleans and nil are
+// shared objects, so identity "works" for some values and not for others
+// (map.pop(k, 0) on a stored 0 looked like an absent key).
+func noIdentityComparisonOfScriptValues(c *core.Ctx) {
+	p := c.P
+	op := p.Pkg("object")
+	objI := core.MustType(op, "Object")
+	isObj := func(t types.Type) bool {
+		if core.NamedOf(t) == objI {
+			return true
+		}
+		if pt, ok := t.Underlying().(*types.Pointer); ok {
+			if nt := core.NamedOf(pt.Elem()); nt != nil && nt.Obj().Pkg() == op.Types {
+				if types.Implements(t, objI.Underlying().(*types.Interface)) {
+					return true
+				}
+			}
+		}
+		return false
+	}
+	singleton := func(v ssa.Value) bool {
+		for _, o := range core.Origins(v) {
+			switch x := o.(type) {
+			case *ssa.Const:
+				continue
+			case *ssa.MakeInterface:
+				if u, ok := x.X.(*ssa.UnOp); ok {
+					if _, isG := u.X.(*ssa.Global); isG {
+						continue
+					}
+				}
+				return false
+			case *ssa.UnOp:
+				if _, isG := x.X.(*ssa.Global); isG && x.Op == token.MUL {
+					continue
+				}
+				return false
+			default:
+				return false
+			}
+		}
+		return true
+	}
+	n := 0
+	byFn := map[*ssa.Function]string{}
+	seen := map[*ssa.Function]bool{}
+	for _, fn := range repoFns(p, "object", "builtins") {
+		if fn.Name() == "Equals" {
+			continue // identity is the defined equality of reference types
+		}
+		for _, b := range fn.Blocks {
+			for _, in := range b.Instrs {
+				bo, ok := in.(*ssa.BinOp)
+				if !ok || (bo.Op != token.EQL && bo.Op != token.NEQ) {
+					continue
+				}
+				if !isObj(bo.X.Type()) || !isObj(bo.Y.Type()) {
+					continue
+				}
+				n++
+				seen[fn] = true
+				if singleton(bo.X) || singleton(bo.Y) {
+					continue
+				}
+				byFn[fn] = p.Pos(bo.Pos())
+			}
+		}
+	}
+	var fns []*ssa.Function
+	for f := range seen {
+		fns = append(fns, f)
+	}
+	sort.Slice(fns, func(i, j int) bool { return core.SSAName(fns[i]) < core.SSAName(fns[j]) })
+	for _, fn := range fns {
+		c.Check(byFn[fn] == "", core.SSAName(fn)+"|no-identity-comparison", p.Pos(fn.Pos()),
+			fn.Name()+" compares script values with == only against nil or the Nil/True/False singletons"+ifs(byFn[fn] != "", "; at "+byFn[fn]+" two arbitrary values are compared by object identity"))
+	}
+	c.Stat("object_comparisons", n)
+}
